@@ -28,11 +28,11 @@ RULE = (
     "raised MosMergeError, all other mosromgr warnings form the same multiset.  Strict: the same "
     "exception type as the first failing fold step propagates and str(mc) equals the fold of all "
     "earlier messages.  The roCreate carries any of the message IDs (not only the lowest); in a quarter "
-    "of the cases merge() is called a second time (non-strict) and must equal adding the messages again.  Non-trivial = >= 3 messages and (a failing message that is not last, or "
+    "of the cases merge() is called a second time (non-strict) and must equal adding the messages again; in a share of the file / S3 cases one message's file is overwritten with garbage after construction (injected fault): the merge must stop there with MosInvalidXML in both modes, with the earlier messages applied.  Non-trivial = >= 3 messages and (a failing message that is not last, or "
     "messages after the roDelete); distinct = digest of the document list and mode.")
 ASSUMPTIONS = ['self-consistency oracle by design: the property is an equivalence between two API paths; '
                'absolute correctness of one step is C01-C06']
-MANDATORY = ['strict', 'non-strict', 'non-utf8-source', 'merge-called-twice', 'roCreate-not-lowest-id', 'source:strings', 'source:files', 'source:s3',
+MANDATORY = ['fault:file-damaged-after-construction', 'str-with-foreign-declaration', 'strict', 'non-strict', 'non-utf8-source', 'merge-called-twice', 'roCreate-not-lowest-id', 'source:strings', 'source:files', 'source:s3',
              'failing-message-not-last', 'messages-after-roDelete', 'several-failures', 'no-failure']
 
 
@@ -65,6 +65,11 @@ def build_collection(case, workdir):
     docs, order, source = case['docs'], case['order'], case['source']
     supplied = [docs[i] for i in order]
     if source == 'strings':
+        if case.get('enc'):
+            # every third str still carries the declaration of the encoding it was decoded from
+            from checks.c08 import ENCODINGS
+            supplied = [(f'<?xml version="1.0" encoding="{ENCODINGS[case["enc"]][0]}"?>' + d) if n % 3 == 0 else d
+                        for n, d in enumerate(supplied)]
         return MosCollection.from_strings(supplied, allow_incomplete=True), None
     def raw(n, d):
         # every third document of a byte-oriented source in a declared non-UTF-8 encoding
@@ -95,9 +100,27 @@ def judge_case(case):
     strict = case['strict']
     mode = 'strict' if strict else 'non-strict'
     exp_str, exp_nfail, exp_other, exp_exc, _, exp_ro = fold(case['docs'], strict)
+    damage = case.get('damage') if case['source'] in ('files', 's3') and len(case['docs']) > 1 else None
+    victim = None
+    if damage is not None:
+        # injected fault: one message's file / object is overwritten with garbage AFTER the collection
+        # was constructed.  Adding the messages one by one stops right there: reading it fails
+        msgs = sorted(case['docs'][1:], key=lambda d: MosFile.from_string(d).message_id)
+        victim = msgs[damage % len(msgs)]
+        upto = [case['docs'][0]] + msgs[:damage % len(msgs)]
+        exp_str, exp_nfail, exp_other, exp_exc, _, exp_ro = fold(upto, strict)
+        if exp_exc is None:
+            exp_exc = 'MosInvalidXML'
     fails = []
     try:
         mc, fake = build_collection(case, workdir)
+        if victim is not None:
+            n = [case['docs'][i] for i in case['order']].index(victim)
+            if fake is not None:
+                fake.buckets['bkt'][f'pfx/k{n:03d}.mos.xml'] = b'no longer <xml'
+            else:
+                with open(os.path.join(workdir, f'f{n:03d}.mos.xml'), 'wb') as f:
+                    f.write(b'no longer <xml')
         got_exc = None
         with warnings.catch_warnings(record=True) as rec:
             warnings.simplefilter('always')
@@ -133,7 +156,7 @@ def judge_case(case):
             fails.append(Failure(PROP, f'C09|{mode}|other-warnings-differ',
                                  f'warnings {dict(got)} vs hand fold {dict(exp_other)}',
                                  dict(exp_other), dict(got)))
-        if case.get('again') and not fails:
+        if case.get('again') and not fails and victim is None:
             # calling merge() again applies every message again - to the running order as it
             # is now - exactly as adding them one by one again would
             exp2, nfail2, _o2, exc2, _f2, _r2 = fold(case['docs'], False, ro=exp_ro)
@@ -186,13 +209,14 @@ def shrink(case, still):
 @st.composite
 def cases(draw):
     col = draw(colgen.collection(max_msgs=10, faults=draw(st.sampled_from(['none', 'some', 'some', 'heavy'])),
-                                 rich=draw(st.integers(0, 2)) == 0))
+                                 rich=draw(st.integers(0, 2)) == 0, allow_no_slug=True))
     docs = col['docs']
     order = list(draw(gen.permutation(range(len(docs)))))
     return {'docs': docs, 'order': order, 'strict': draw(st.booleans()),
             'source': draw(st.sampled_from(['strings', 'strings', 'files', 's3'])),
             'page_size': draw(st.integers(1, 4)), 'has_delete': col['has_delete'],
-            'again': draw(st.integers(0, 3)) == 0, 'enc': draw(st.sampled_from([None, None, 'latin1', 'utf16']))}
+            'again': draw(st.integers(0, 3)) == 0, 'enc': draw(st.sampled_from([None, None, 'latin1', 'utf16'])),
+            'damage': draw(st.sampled_from([None, None, None, 0, 1, 2, 5]))}
 
 
 def shard(args):
@@ -217,13 +241,17 @@ def shard(args):
             classes.append('no-failure')
         if case['again']:
             classes.append('merge-called-twice')
+        if case.get('damage') is not None and case['source'] != 'strings' and nmsg:
+            classes.append('fault:file-damaged-after-construction')
         if case.get('enc') and case['source'] != 'strings':
             classes.append('non-utf8-source')
+        if case.get('enc') and case['source'] == 'strings':
+            classes.append('str-with-foreign-declaration')
         mids_ = [MosFile.from_string(d).message_id for d in case['docs']]
         if mids_[0] != min(mids_):
             classes.append('roCreate-not-lowest-id')
         nontrivial = nmsg >= 3 and (not_last or after_delete)
-        col.record({k: case[k] for k in ('docs', 'order', 'strict', 'source', 'page_size', 'again', 'enc')},
+        col.record({k: case[k] for k in ('docs', 'order', 'strict', 'source', 'page_size', 'again', 'enc', 'damage')},
                    nontrivial, classes, judge_case(case),
                    key=h64(*case['docs'], case['strict'], case['source'], str(case['order'])))
     drive.run_given(cases(), one, n, seed)
